@@ -8,16 +8,23 @@ LEVEL_TEXT = ("Coq theorems over the SMTP session model for every configuration 
               "RSET/EHLO/end of DATA, exactly one well-formed reply group per line, no reachable panic, progress; the cut theorem over byte streams (cut_prefix: the deliveries of every byte "
               "prefix are a prefix of the deliveries of the whole stream; cut_store_is_entitled; truncated_is_none); tied to the code by byte-level correspondence of random/garbage "
               "dialogues and of valid dialogues cut after every byte, with the sequencing/reply-shape specifications and the C01 "
-              "entitlement evaluated on the implementation's answers as oracles")
-LEVEL_NOTE = ("Coq kernel; extraction; the MAIL patterns (as RE2 programs), the address parser and the policy are modelled and cross-checked per case; net.ParseIP and enmime header decoding are oracles; idle "
-              "timeouts and TLS are not modelled (TLS disabled); panics inside third-party parsers are searched for by the garbage "
+              "entitlement evaluated on the implementation's answers as oracles; the connection itself is in the model (Proofs/SmtpNet.v): "
+              "bytes arriving in chunks separated by pauses longer than the idle timeout, ended by EOF, silence or a read error - for EVERY "
+              "such connection the session ends (net_session_always_ends), every item gets its one reply, the store gets exactly what the "
+              "dialogue entitles (delivery_exact_net), and how the connection ends changes nothing in the store (how_it_ends_is_irrelevant, "
+              "silent_client_is_cut)")
+LEVEL_NOTE = ("Coq kernel; extraction; the MAIL patterns (as RE2 programs), the address parser and the policy are modelled and cross-checked per case; net.ParseIP and enmime header decoding are oracles; read "
+              "deadlines are modelled as scripted events (a read times out exactly where the client pauses; what bufio/textproto make of a "
+              "pending error with a partial line buffered is transcribed and validated by the correspondence run), not as clocks: the single "
+              "deadline readDataBlock sets for a whole block, write deadlines and write failures are not modelled; TLS is not modelled (disabled); panics inside third-party parsers are searched for by the garbage "
               "stream, not proved absent")
 DESIGN_REF = "DESIGN.md §4 C03"
 RULE = ("(a) dialogues with 35% garbage/out-of-order lines between steps (mixed case, short, unknown, unimplemented, AUTH PLAIN/LOGIN "
-        "sub-dialogues, the two Unicode case folds, binary), SIZE parameters; (b) every byte prefix of valid dialogues; "
+        "sub-dialogues, the two Unicode case folds, binary), SIZE parameters; (b) every byte prefix of valid dialogues; (c) scripted connections: 1-3 pauses at random offsets (line boundaries, inside a "
+        "line, inside a DATA block) ended by EOF / silence / a read error, and one pause at every byte offset of valid dialogues; "
         "distinct = distinct input line; non-trivial = something stored or some 5xx reply")
 TRUSTED = ["net.ParseIP verdicts and enmime header facts (From/To/Subject, parse error) are oracles supplied by the driver from the real functions",
-           "loopback TCP with client half-close stands for a client that disconnects after byte k"]
-ASSUMPTIONS = ["store operations do not fail", "no idle timeout fires during a case"]
+           "an in-memory half-closeable connection (go/smtpd/bufconn.go) stands for TCP: the client writes, half-closes (or pauses / stays silent / breaks as scripted) and reads every reply"]
+ASSUMPTIONS = ["store operations do not fail", "writes to the client do not fail"]
 NOT_PROVED = []
 EXEC_TIMEOUT = {"quick": 900, "thorough": 14400}
